@@ -5,6 +5,7 @@ import (
 	"fmt"
 	"go/token"
 	"go/types"
+	"regexp"
 	"sort"
 	"strings"
 
@@ -30,7 +31,7 @@ type headField struct{ name, typ string }
 var fieldAlias = map[string]string{}
 
 func typeStr(t types.Type) string {
-	return types.TypeString(t, func(p *types.Package) string { return shortPkg(p.Path()) })
+	return aliasTypeNames(types.TypeString(t, func(p *types.Package) string { return shortPkg(p.Path()) }))
 }
 
 func moduleStructs(P *Program, f func(tk string, n *types.Named, st *types.Struct)) {
@@ -42,6 +43,13 @@ func moduleStructs(P *Program, f func(tk string, n *types.Named, st *types.Struc
 		names := sc.Names()
 		sort.Strings(names)
 		for _, name := range names {
+			// a package-level variable of an anonymous struct type owns its fields under "var:pkg.Name"
+			if v, ok := sc.Lookup(name).(*types.Var); ok {
+				if st, ok := v.Type().(*types.Struct); ok {
+					f("var:"+shortPkg(pkg.Types.Path())+"."+name, nil, st)
+				}
+				continue
+			}
 			tn, ok := sc.Lookup(name).(*types.TypeName)
 			if !ok {
 				continue
@@ -179,6 +187,9 @@ func ownerFieldBase(fa *ssa.FieldAddr) (ssa.Value, string, string) {
 		cur := fa
 		for k := 0; k < 4; k++ {
 			tk := typeKey(cur.X.Type())
+			if g, isG := cur.X.(*ssa.Global); isG && tk == "" && g.Pkg != nil {
+				tk = "var:" + shortPkg(g.Pkg.Pkg.Path()) + "." + g.Name()
+			}
 			if a, ok := fieldAlias[tk+"."+path]; ok {
 				return cur.X, tk, a
 			}
@@ -199,6 +210,14 @@ func ownerFieldBase(fa *ssa.FieldAddr) (ssa.Value, string, string) {
 		}
 	}
 	return fa.X, typeKey(fa.X.Type()), name
+}
+
+// refFieldName: the reference name of a direct field of a struct type.
+func refFieldName(tk, name string) string {
+	if a, ok := fieldAlias[tk+"."+name]; ok {
+		return a
+	}
+	return name
 }
 
 func faType(fa *ssa.FieldAddr) string { _, t, _ := ownerFieldBase(fa); return t }
@@ -423,4 +442,582 @@ func paramAt(f *ssa.Function, k int) *ssa.Parameter {
 		return f.Params[perm[k].cur] // (for a bundled parameter: the parameter object that carries it)
 	}
 	return f.Params[k]
+}
+
+// Names of unexported types and functions. Rule tables refer to unexported types ("revocation.compressedUpdate")
+// and functions ("gabi.createChallenge") by the names they have on the reference tree (head_types.txt,
+// head_funcs.txt: `-dump headtypes`, `-dump headfuncs`). An unexported identifier can be renamed without any change
+// of behaviour, so before anything else is keyed: a reference type that no longer exists in its package is matched
+// with the one new unexported type of the package that has the same structure (underlying type, with references to
+// unexported module types anonymised), and a reference function that no longer exists with the one new unexported
+// function of the package that has the same signature (receiver included). typeShort/typeStr/typeKey and FuncKey
+// then render the reference name. No match, or more than one candidate: no alias, and the rules that name the
+// identifier report it as missing.
+//
+//go:embed head_types.txt
+var headTypesTxt string
+
+//go:embed head_funcs.txt
+var headFuncsTxt string
+
+var (
+	typeNameAlias = map[string]string{} // "pkg.current" -> "pkg.reference"
+	funcAlias     = map[*ssa.Function]string{}
+	qualTypeRe    = regexp.MustCompile(`\b([a-z][a-zA-Z0-9]*)\.([a-z_][A-Za-z0-9_]*)\b`)
+)
+
+func aliasTypeNames(s string) string {
+	if len(typeNameAlias) == 0 {
+		return s
+	}
+	return qualTypeRe.ReplaceAllStringFunc(s, func(m string) string {
+		if a, ok := typeNameAlias[m]; ok {
+			return a
+		}
+		return m
+	})
+}
+
+func rawTypeStr(t types.Type) string {
+	return types.TypeString(t, func(p *types.Package) string {
+		if inModule(p) {
+			return shortPkg(p.Path())
+		}
+		return p.Path()
+	})
+}
+
+// anonStructure: the underlying type with every reference to an unexported module type written pkg.?
+func anonStructure(t types.Type, unexported map[string]bool) string {
+	return qualTypeRe.ReplaceAllStringFunc(rawTypeStr(t), func(m string) string {
+		if unexported[m] {
+			return m[:strings.Index(m, ".")] + ".?"
+		}
+		return m
+	})
+}
+
+func unexportedTypesOf(pkgs []*types.Package) (map[string]bool, map[string]*types.Named) {
+	set := map[string]bool{}
+	byName := map[string]*types.Named{}
+	for _, pk := range pkgs {
+		if pk == nil || !inModule(pk) {
+			continue
+		}
+		for _, name := range pk.Scope().Names() {
+			tn, ok := pk.Scope().Lookup(name).(*types.TypeName)
+			if !ok || tn.Exported() || tn.IsAlias() {
+				continue
+			}
+			n, ok := tn.Type().(*types.Named)
+			if !ok {
+				continue
+			}
+			k := shortPkg(pk.Path()) + "." + name
+			set[k] = true
+			byName[k] = n
+		}
+	}
+	return set, byName
+}
+
+func dumpHeadTypes(P *Program) {
+	var tp []*types.Package
+	for _, p := range P.Pkgs {
+		tp = append(tp, p.Types)
+	}
+	set, byName := unexportedTypesOf(tp)
+	var lines []string
+	for k, n := range byName {
+		lines = append(lines, k+"\t"+anonStructure(n.Underlying(), set))
+	}
+	sort.Strings(lines)
+	for _, l := range lines {
+		fmt.Println(l)
+	}
+}
+
+func computeTypeAliases(pkgs []*types.Package) {
+	typeNameAlias = map[string]string{}
+	head := map[string]string{}
+	for _, ln := range strings.Split(headTypesTxt, "\n") {
+		if p := strings.SplitN(ln, "\t", 2); len(p) == 2 && !strings.HasPrefix(ln, "#") {
+			head[p[0]] = p[1]
+		}
+	}
+	set, byName := unexportedTypesOf(pkgs)
+	// anonymise with the union of reference and current unexported names, so that both sides agree
+	all := map[string]bool{}
+	for k := range set {
+		all[k] = true
+	}
+	for k := range head {
+		all[k] = true
+	}
+	reanon := func(s string) string {
+		return qualTypeRe.ReplaceAllStringFunc(s, func(m string) string {
+			if all[m] {
+				return m[:strings.Index(m, ".")] + ".?"
+			}
+			return m
+		})
+	}
+	missing := map[string][]string{} // pkg|structure -> reference names gone
+	for k, st := range head {
+		if !set[k] {
+			pk := k[:strings.Index(k, ".")]
+			missing[pk+"|"+reanon(st)] = append(missing[pk+"|"+reanon(st)], k)
+		}
+	}
+	fresh := map[string][]string{}
+	for k, n := range byName {
+		if _, known := head[k]; !known {
+			pk := k[:strings.Index(k, ".")]
+			key := pk + "|" + reanon(anonStructure(n.Underlying(), set))
+			fresh[key] = append(fresh[key], k)
+		}
+	}
+	matchedRef, matchedCur := map[string]bool{}, map[string]bool{}
+	for key, ms := range missing {
+		if fs := fresh[key]; len(ms) == 1 && len(fs) == 1 {
+			typeNameAlias[fs[0]] = ms[0]
+			matchedRef[ms[0]], matchedCur[fs[0]] = true, true
+		}
+	}
+	// second pass: a struct type renamed together with its (unexported) fields - same field types in the same order
+	fieldTypesOnly := func(s string) string { return structFieldRe.ReplaceAllString(s, "$1") }
+	missing2, fresh2 := map[string][]string{}, map[string][]string{}
+	for key, ms := range missing {
+		for _, m := range ms {
+			if !matchedRef[m] && strings.Contains(key, "|struct{") {
+				k2 := key[:strings.Index(key, "|")+1] + fieldTypesOnly(key[strings.Index(key, "|")+1:])
+				missing2[k2] = append(missing2[k2], m)
+			}
+		}
+	}
+	for key, fs := range fresh {
+		for _, f := range fs {
+			if !matchedCur[f] && strings.Contains(key, "|struct{") {
+				k2 := key[:strings.Index(key, "|")+1] + fieldTypesOnly(key[strings.Index(key, "|")+1:])
+				fresh2[k2] = append(fresh2[k2], f)
+			}
+		}
+	}
+	for key, ms := range missing2 {
+		if fs := fresh2[key]; len(ms) == 1 && len(fs) == 1 {
+			typeNameAlias[fs[0]] = ms[0]
+		}
+	}
+}
+
+// structFieldRe drops the names of unexported fields in a struct type string ("issuer string; counter uint").
+var structFieldRe = regexp.MustCompile(`\b[a-z_][A-Za-z0-9_]* ((?:\*|\[\]|map\[|chan |func\(|[A-Za-z]))`)
+
+func funcSigKey(f *ssa.Function) string {
+	s := ""
+	if r := f.Signature.Recv(); r != nil {
+		s = "(" + typeStr(r.Type()) + ")"
+	}
+	var ps, rs []string
+	for i := 0; i < f.Signature.Params().Len(); i++ {
+		ps = append(ps, typeStr(f.Signature.Params().At(i).Type()))
+	}
+	for i := 0; i < f.Signature.Results().Len(); i++ {
+		rs = append(rs, typeStr(f.Signature.Results().At(i).Type()))
+	}
+	v := ""
+	if f.Signature.Variadic() {
+		v = "..."
+	}
+	return s + "(" + strings.Join(ps, ",") + v + ")(" + strings.Join(rs, ",") + ")"
+}
+
+func aliasableFunc(f *ssa.Function) bool {
+	if f == nil || f.Parent() != nil || f.Synthetic != "" || f.Object() == nil || f.Object().Exported() {
+		return false
+	}
+	if o := f.Origin(); o != nil && o != f {
+		return false
+	}
+	var pk *types.Package
+	if f.Pkg != nil {
+		pk = f.Pkg.Pkg
+	} else {
+		pk = f.Object().Pkg()
+	}
+	return inModule(pk)
+}
+
+func dumpHeadFuncs(P *Program) {
+	var lines []string
+	for _, f := range P.AllFuncs {
+		if aliasableFunc(f) {
+			lines = append(lines, FuncKey(f)+"\t"+funcSigKey(f))
+		}
+	}
+	sort.Strings(lines)
+	for _, l := range lines {
+		fmt.Println(l)
+	}
+}
+
+func computeFuncAliases(all map[*ssa.Function]bool) {
+	funcAlias = map[*ssa.Function]string{}
+	head := map[string]string{}
+	for _, ln := range strings.Split(headFuncsTxt, "\n") {
+		if p := strings.SplitN(ln, "\t", 2); len(p) == 2 && !strings.HasPrefix(ln, "#") {
+			head[p[0]] = p[1]
+		}
+	}
+	if len(head) == 0 {
+		return
+	}
+	cur := map[string]bool{}
+	var fs []*ssa.Function
+	for f := range all {
+		if aliasableFunc(f) {
+			cur[FuncKey(f)] = true
+			fs = append(fs, f)
+		}
+	}
+	pkgOf := func(k string) string { return k[:strings.Index(k, ".")] }
+	missing := map[string][]string{}
+	for k, sig := range head {
+		if !cur[k] {
+			missing[pkgOf(k)+"|"+sig] = append(missing[pkgOf(k)+"|"+sig], k)
+		}
+	}
+	if len(missing) == 0 {
+		return
+	}
+	fresh := map[string][]*ssa.Function{}
+	for _, f := range fs {
+		k := FuncKey(f)
+		if _, known := head[k]; !known {
+			key := pkgOf(k) + "|" + funcSigKey(f)
+			fresh[key] = append(fresh[key], f)
+		}
+	}
+	for key, ms := range missing {
+		if cands := fresh[key]; len(ms) == 1 && len(cands) == 1 {
+			funcAlias[cands[0]] = ms[0]
+		}
+	}
+}
+
+// Unexported package-level variables go by their reference names too (head_globals.txt: `-dump headglobals`): a
+// reference variable that no longer exists is the one new unexported variable of the package with the same type.
+//
+//go:embed head_globals.txt
+var headGlobalsTxt string
+
+var globalAlias = map[string]string{} // "pkg.current" -> reference name (without package)
+
+func dumpHeadGlobals(P *Program) {
+	var lines []string
+	for _, sp := range P.SSA.AllPackages() {
+		if sp.Pkg == nil || !inModule(sp.Pkg) {
+			continue
+		}
+		for name, m := range sp.Members {
+			g, ok := m.(*ssa.Global)
+			if !ok || g.Object() == nil || g.Object().Exported() || strings.HasPrefix(name, "init$") {
+				continue
+			}
+			lines = append(lines, shortPkg(sp.Pkg.Path())+"."+name+"\t"+typeStr(g.Type()))
+		}
+	}
+	sort.Strings(lines)
+	for _, l := range lines {
+		fmt.Println(l)
+	}
+}
+
+func computeGlobalAliases(prog *ssa.Program) {
+	globalAlias = map[string]string{}
+	head := map[string]string{}
+	for _, ln := range strings.Split(headGlobalsTxt, "\n") {
+		if p := strings.SplitN(ln, "\t", 2); len(p) == 2 && !strings.HasPrefix(ln, "#") {
+			head[p[0]] = p[1]
+		}
+	}
+	if len(head) == 0 {
+		return
+	}
+	cur := map[string]string{}
+	for _, sp := range prog.AllPackages() {
+		if sp.Pkg == nil || !inModule(sp.Pkg) {
+			continue
+		}
+		for name, m := range sp.Members {
+			if g, ok := m.(*ssa.Global); ok && g.Object() != nil && !g.Object().Exported() {
+				cur[shortPkg(sp.Pkg.Path())+"."+name] = typeStr(g.Type())
+			}
+		}
+	}
+	missing := map[string][]string{}
+	for k, t := range head {
+		if _, ok := cur[k]; !ok {
+			pk := k[:strings.Index(k, ".")]
+			missing[pk+"|"+t] = append(missing[pk+"|"+t], k)
+		}
+	}
+	fresh := map[string][]string{}
+	for k, t := range cur {
+		if _, known := head[k]; !known {
+			pk := k[:strings.Index(k, ".")]
+			fresh[pk+"|"+t] = append(fresh[pk+"|"+t], k)
+		}
+	}
+	for key, ms := range missing {
+		if fs := fresh[key]; len(ms) == 1 && len(fs) == 1 {
+			globalAlias[fs[0]] = ms[0][strings.Index(ms[0], ".")+1:]
+		}
+	}
+}
+
+// globalName: the reference name of a package-level variable.
+func globalName(g *ssa.Global) string {
+	if len(globalAlias) > 0 && g.Pkg != nil {
+		if a, ok := globalAlias[shortPkg(g.Pkg.Pkg.Path())+"."+g.Name()]; ok {
+			return a
+		}
+	}
+	return g.Name()
+}
+
+// Result objects. Like parameter objects: when an unexported function now returns a struct value of a new
+// unexported type in place of several reference results (same types in the same order once the struct is expanded
+// into its fields), result positions mean the reference tree's positions: `call#h` in descriptors (a field read of
+// the returned struct is the reference result), retValue/retCount for the function's own returns, callAndResult.
+var resPerm = map[*ssa.Function][]vparam{}
+
+func splitTopLevel(s string) []string {
+	var out []string
+	d, cur := 0, ""
+	for _, ch := range s {
+		switch ch {
+		case '(', '[', '{':
+			d++
+		case ')', ']', '}':
+			d--
+		}
+		if ch == ',' && d == 0 {
+			out = append(out, cur)
+			cur = ""
+			continue
+		}
+		cur += string(ch)
+	}
+	if cur != "" {
+		out = append(out, cur)
+	}
+	return out
+}
+
+func computeResPerms(P *Program) {
+	resPerm = map[*ssa.Function][]vparam{}
+	head := map[string][]string{}
+	for _, ln := range strings.Split(headFuncsTxt, "\n") {
+		p := strings.SplitN(ln, "\t", 2)
+		if len(p) != 2 || strings.HasPrefix(ln, "#") {
+			continue
+		}
+		sig := p[1]
+		// "...)(r1,r2)" : the last parenthesised group
+		if !strings.HasSuffix(sig, ")") {
+			continue
+		}
+		d, i := 0, len(sig)-1
+		for ; i >= 0; i-- {
+			if sig[i] == ')' {
+				d++
+			} else if sig[i] == '(' {
+				d--
+				if d == 0 {
+					break
+				}
+			}
+		}
+		if i < 0 {
+			continue
+		}
+		head[p[0]] = splitTopLevel(sig[i+1 : len(sig)-1])
+	}
+	knownStruct := map[string]bool{}
+	for _, ln := range strings.Split(headFieldsTxt, "\n") {
+		if p := strings.Split(ln, "\t"); len(p) == 3 {
+			knownStruct[p[0]] = true
+		}
+	}
+	for _, ln := range strings.Split(headTypesTxt, "\n") {
+		if p := strings.SplitN(ln, "\t", 2); len(p) == 2 {
+			knownStruct[p[0]] = true
+		}
+	}
+	for _, f := range P.AllFuncs {
+		if !reorderable(f) {
+			continue
+		}
+		h, ok := head[FuncKey(f)]
+		res := f.Signature.Results()
+		if !ok || res.Len() >= len(h) || res.Len() == 0 {
+			continue
+		}
+		var slots []vparam
+		var typs []string
+		expanded := false
+		for i := 0; i < res.Len(); i++ {
+			t := res.At(i).Type()
+			if n, isN := t.(*types.Named); isN && n.Obj().Pkg() != nil && inModule(n.Obj().Pkg()) && !n.Obj().Exported() && !knownStruct[typeKey(n)] {
+				if st, isS := n.Underlying().(*types.Struct); isS {
+					for j := 0; j < st.NumFields(); j++ {
+						slots = append(slots, vparam{i, j})
+						typs = append(typs, typeStr(st.Field(j).Type()))
+					}
+					expanded = true
+					continue
+				}
+			}
+			slots = append(slots, vparam{i, -1})
+			typs = append(typs, typeStr(t))
+		}
+		if !expanded || len(typs) != len(h) {
+			continue
+		}
+		same := true
+		for i := range h {
+			if h[i] != typs[i] {
+				same = false
+			}
+		}
+		if same {
+			resPerm[f] = slots
+		}
+	}
+}
+
+func calleeResPerm(c *ssa.Call) []vparam {
+	if len(resPerm) == 0 || c == nil {
+		return nil
+	}
+	f := c.Call.StaticCallee()
+	if f == nil {
+		return nil
+	}
+	if o := f.Origin(); o != nil {
+		f = o
+	}
+	return resPerm[f]
+}
+
+// refResultIndex: the reference position of result cur (as a whole) of call c.
+func refResultIndex(c *ssa.Call, cur int) int {
+	if perm := calleeResPerm(c); perm != nil {
+		for h, vp := range perm {
+			if vp.cur == cur && vp.field < 0 {
+				return h
+			}
+		}
+	}
+	return cur
+}
+
+// bundledResult: v reads field j of the struct that call c returns at position i (directly, or from the local the
+// result was put into): the call and the reference result position.
+func bundledResult(v ssa.Value) (*ssa.Call, int, bool) {
+	if len(resPerm) == 0 {
+		return nil, 0, false
+	}
+	var src ssa.Value
+	field := -1
+	switch x := v.(type) {
+	case *ssa.Field:
+		src, field = x.X, x.Field
+	case *ssa.FieldAddr:
+		al, ok := x.X.(*ssa.Alloc)
+		if !ok {
+			return nil, 0, false
+		}
+		n := 0
+		for _, r := range referrersOf(al) {
+			if st, ok := r.(*ssa.Store); ok && st.Addr == ssa.Value(al) {
+				n++
+				src = st.Val
+			}
+		}
+		if n != 1 {
+			return nil, 0, false
+		}
+		field = x.Field
+	default:
+		return nil, 0, false
+	}
+	var c *ssa.Call
+	cur := 0
+	switch s := src.(type) {
+	case *ssa.Call:
+		c = s
+	case *ssa.Extract:
+		c, _ = s.Tuple.(*ssa.Call)
+		cur = s.Index
+	}
+	perm := calleeResPerm(c)
+	if perm == nil {
+		return nil, 0, false
+	}
+	for h, vp := range perm {
+		if vp.cur == cur && vp.field == field {
+			return c, h, true
+		}
+	}
+	return nil, 0, false
+}
+
+// retCount / refRetValue: the returns of a function in reference positions.
+func retCount(ret *ssa.Return) int {
+	if perm := resPerm[ret.Parent()]; perm != nil {
+		return len(perm)
+	}
+	return len(ret.Results)
+}
+
+func refRetRaw(ret *ssa.Return, h int) ssa.Value {
+	perm := resPerm[ret.Parent()]
+	if perm == nil || h >= len(perm) {
+		return ret.Results[h]
+	}
+	vp := perm[h]
+	v := ret.Results[vp.cur]
+	if vp.field < 0 {
+		return v
+	}
+	if fv := structFieldValue(v, vp.field); fv != nil {
+		return fv
+	}
+	// the zero value of the struct (`return T{}, err`): the field's zero value
+	if ld, ok := v.(*ssa.UnOp); ok && ld.Op == token.MUL {
+		if al, ok := ld.X.(*ssa.Alloc); ok {
+			written := false
+			for _, r := range referrersOf(al) {
+				if fa, ok := r.(*ssa.FieldAddr); ok && fa.Field == vp.field {
+					written = true
+				}
+				if st, ok := r.(*ssa.Store); ok && st.Addr == ssa.Value(al) {
+					written = true
+				}
+			}
+			if !written {
+				if st, ok := al.Type().(*types.Pointer).Elem().Underlying().(*types.Struct); ok {
+					return ssa.NewConst(nil, st.Field(vp.field).Type())
+				}
+			}
+		}
+	}
+	if c, ok := v.(*ssa.Const); ok && c.Value == nil {
+		if st, ok := c.Type().Underlying().(*types.Struct); ok {
+			return ssa.NewConst(nil, st.Field(vp.field).Type())
+		}
+	}
+	return v
 }
